@@ -364,6 +364,48 @@ func main() {
 		return k
 	}
 	runType(spec[interface{}]{"interface{} (any)", anyKey, anyAlias, mutateInts}, seed, nops)
+	// interface-typed keys holding POINTER-SHAPED composites: Go stores a struct with one pointer-shaped field, a
+	// one-element array of such, and nestings of these directly in the interface's data word, exactly like a plain
+	// pointer - a hasher that decides "is the data word the value?" by reflect.Kind gets these wrong (hashes the
+	// pointee, which changes; dereferences nil)
+	type ptrBox struct{ p *int }
+	type chanBox struct{ ch chan int }
+	type nestBox struct{ a [1]ptrBox }
+	bchans := make([]chan int, 64)
+	for i := range bchans {
+		bchans[i] = make(chan int, 4)
+	}
+	shapedKey := func(i int) interface{} {
+		switch i % 5 {
+		case 0:
+			if i == 0 {
+				return ptrBox{nil}
+			}
+			return ptrBox{cells[i%64]}
+		case 1:
+			if i == 1 {
+				return [1]*int{nil}
+			}
+			return [1]*int{cells[i%64]}
+		case 2:
+			return nestBox{[1]ptrBox{{cells[i%64]}}}
+		case 3:
+			return chanBox{bchans[i%64]}
+		default:
+			return cells[i%64]
+		}
+	}
+	mutateShaped := func() {
+		mutateInts()
+		for _, c := range bchans { // the channel's header memory changes, its identity does not
+			select {
+			case c <- 1:
+			default:
+				<-c
+			}
+		}
+	}
+	runType(spec[interface{}]{"interface{} holding pointer-shaped structs / arrays", shapedKey, func(k interface{}) interface{} { return k }, mutateShaped}, seed, nops)
 	runType(spec[fmt.Stringer]{"fmt.Stringer (non-empty interface)", func(i int) fmt.Stringer {
 		if i == 3 {
 			return nil
